@@ -453,6 +453,7 @@ Proof.
   destruct (go_ymd_of_fields _ _ _ _ _ _ _ EF) as (Ey & Em & Ed).
   rewrite Ey, Em, Ed, !Z.eqb_refl. cbn [andb negb].
   replace (rank p <=? 3) with false by lia.
+  replace ((om <=? -1440) || (1440 <=? om)) with false by lia.
   assert (NF : forall tm kk, new_ts_frac tm p kk nf = mkTs tm p kk nf).
   { intros tm kk. unfold new_ts_frac. replace (9 <? nf) with false by lia.
     destruct (rank p <? 6) eqn:E6; [rewrite Hnf0 by lia|]; reflexivity. }
